@@ -10,3 +10,5 @@ pub mod stubs;
 
 #[cfg(kani)]
 mod c19_tags;
+#[cfg(kani)]
+mod c02_patch_archive;
